@@ -102,6 +102,7 @@ func genC07Soak(t *rapid.T) c07SoakCase {
 	c := c07SoakCase{Text: pick(t, texts, "text"), Goroutines: rapid.IntRange(8, 16).Draw(t, "goroutines"), LimitMB: 768}
 	if thorough() {
 		c.Parses = rapid.IntRange(20000, 30000).Draw(t, "parses")
+		c.LimitMB = 1536
 	} else {
 		c.Parses = rapid.IntRange(4000, 6000).Draw(t, "parses")
 	}
@@ -221,5 +222,5 @@ func checkC07Soak(x *X, c c07SoakCase) error {
 }
 
 var c07SoakProp = Define("C07", "soak",
-	"One of three small legal specifications compiled N times (quick 4000..6000, thorough 20000..30000) by 8..16 goroutines in a process of its own (the plain test binary when the -race build runs and the plain one lies beside it), in batches; after each batch runtime.MemStats.Sys must stay below 768 MiB (the repaired tree needs ~70-130 MiB; the pinned tree passed 1 GiB after 4000 compilations), the process must survive, every compilation must succeed. Non-trivial: in-flight peak >=4.",
+	"One of three small legal specifications compiled N times (quick 4000..6000, thorough 20000..30000) by 8..16 goroutines in a process of its own (the plain test binary when the -race build runs and the plain one lies beside it), in batches; after each batch runtime.MemStats.Sys must stay below 768 MiB (thorough: 1536 MiB; the repaired tree needs 70-280 MiB for 4000 and ~360 MiB for 23000 compilations, the pinned tree passed 1 GiB after 4000), the process must survive, every compilation must succeed. Non-trivial: in-flight peak >=4.",
 	genC07Soak, checkC07Soak)
